@@ -9,6 +9,10 @@ Ties:
      text inside Coq; reader: the written text read back by loads_all_xyz compared with the model inside Coq;
      sessions: write / edit in place / write again on ONE object, every text compared with the model's own state
      evolution (Model.XyzEdit.run_session) inside Coq.
+     views: Substructures over a Molecule / Structure / Conformer whose atoms were selected in any order (permuted, repeated,
+     breadth-first, nested, ...), written, the parent edited directly and through the view, written again; every text compared
+     with Model.XyzView.run_view inside Coq and judged against the selection -- in selection order -- of the parent's state
+     kept by the harness; a quarter re-read with source_units=U.
 Oracle: round trip (count, order, elements, coordinates to the written precision, frame by frame) of every write, judged
 against the state the object has at the time of that write; and for every DistanceUnit member a geometry expressed in
 that unit (physical constants, not the table) read with source_units=U through every class-level entry point of the
@@ -1183,6 +1187,312 @@ def size_describe(spec):
     return f"{len(frs)} geometries of {[f[0] for f in frs[:6]]}{'...' if len(frs) > 6 else ''} atoms written one after another by {spec['how']}"
 
 
+# ------------------------------------------------------------------ VIEW family
+# Written objects that do not own their atoms and coordinates: a Substructure over a parent (Molecule, Structure, a Conformer of
+# an ensemble) whose atoms were selected in ANY order -- ascending (control), permuted, reversed, a whole permutation, an index
+# more than once, a breadth-first order over the bonds, `heavy`, a substructure of a substructure, no atom at all; given as
+# indices or as Atom objects.  Sessions: the view written (five ways), the parent edited (a row, an element) or assigned / scaled /
+# translated THROUGH the view, view and parent written again.  The oracle keeps the parent's state itself (plain lists) and
+# judges every text against the selection of that state in selection order; a quarter of the cases declare the parent's numbers
+# to be in another unit and read the view's text back with source_units=U.
+VIEW_PARENTS = ["Molecule", "Structure", "Conformer", "Molecule"]
+VIEW_HOW = ["dumps_xyz", "dump_xyz:stream", "dump_xyz:file", "ml.dumps", "dumps_xyz"]
+VIEW_MODES = ["permuted", "permuted", "permuted", "reversed", "full-permutation", "repeated", "repeated", "bfs", "bfs", "ascending",
+              "heavy", "nested", "nested", "empty"]
+VIEW_UNIT_READERS = ["Molecule.loads_xyz", "Structure.loads_all_xyz", "CartesianGeometry.load_xyz:stream", "Molecule.load_all_xyz:path"]
+
+
+def _bfs_order(n, bonds, start):
+    adj = {i: [] for i in range(n)}
+    for i, j in bonds:
+        adj[i].append(j)
+        adj[j].append(i)
+    seen, queue, out = {start}, [start], []
+    while queue:
+        i = queue.pop(0)
+        out.append(i)
+        for j in adj[i]:
+            if j not in seen:
+                seen.add(j)
+                queue.append(j)
+    return out
+
+
+def gen_view(rng):
+    parent = rng.choice(VIEW_PARENTS)
+    n = rng.randint(2, 8)
+    trip = lambda: [c10.rand_coord(rng) for _ in range(3)]
+    syms = [rng.choice(c10.ELEMS) for _ in range(n)]
+    bonds = [[i, i + 1] for i in range(n - 1) if rng.random() < 0.8]
+    for _ in range(rng.randint(0, n // 2)):
+        i, j = rng.sample(range(n), 2)
+        if [i, j] not in bonds and [j, i] not in bonds:
+            bonds.append([i, j])
+    k = rng.randint(1, 3) if parent == "Conformer" else 1
+    mode = rng.choice(VIEW_MODES)
+    nested, sel_as = None, rng.choice(["int", "int", "atom"])
+    some = lambda lo: rng.sample(range(n), rng.randint(lo, n))
+    if mode == "ascending":
+        sel = sorted(some(1))
+    elif mode == "permuted":
+        sel = some(2)
+        if sel == sorted(sel):
+            sel.reverse()
+    elif mode == "reversed":
+        sel = sorted(some(2))[::-1]
+    elif mode == "full-permutation":
+        sel = list(range(n))
+        rng.shuffle(sel)
+        if sel == sorted(sel):
+            sel.reverse()
+    elif mode == "repeated":
+        base = some(1)
+        sel = base + [rng.choice(base) for _ in range(rng.randint(1, 2))]
+        rng.shuffle(sel)
+    elif mode == "bfs":
+        sel = _bfs_order(n, bonds, rng.randrange(n))
+        sel_as = "atom"
+    elif mode == "heavy":
+        syms[rng.randrange(n)] = "H"
+        sel = [i for i in range(n) if syms[i] != "H"]
+        sel_as = "heavy"
+    elif mode == "nested":
+        outer = some(2)
+        inner = rng.sample(range(len(outer)), rng.randint(1, len(outer)))
+        nested = [outer, inner]
+        sel = [outer[j] for j in inner]
+    else:
+        sel = []
+    spec = {"parent": parent, "name": rng.choice(c10.NAMES), "syms": syms, "bonds": bonds,
+            "frames": [[trip() for _ in range(n)] for _ in range(k)], "frame": rng.randrange(k),
+            "mode": mode, "sel": sel, "sel_as": sel_as, "nested": nested,
+            "unit": rng.choice([u for u in PHYS if PHYS[u] != 1.0]) if rng.random() < 0.25 else None, "steps": []}
+    steps = spec["steps"]
+    how = lambda: rng.choice(VIEW_HOW)
+    steps.append(["write_view", how()])
+    for _ in range(rng.randint(0, 2)):
+        for _ in range(rng.randint(1, 2)):
+            ops = ["set_row", "set_row", "set_elem"]
+            if nested is None and sel:
+                ops += ["view_assign", "view_assign", "view_scale", "view_translate"]
+            op = rng.choice(ops)
+            if op == "set_row":
+                steps.append([op, rng.choice(sel) if sel and rng.random() < 0.7 else rng.randrange(n), trip()])
+            elif op == "set_elem":
+                steps.append([op, rng.choice(sel) if sel and rng.random() < 0.7 else rng.randrange(n), rng.choice(c10.ELEMS)])
+            elif op == "view_assign":
+                rows = {i: trip() for i in set(sel)}              # one row per parent atom: consistent where an index repeats
+                steps.append([op, [rows[i] for i in sel]])
+            elif op == "view_scale":
+                steps.append([op, rng.choice([2.0, 0.5, 1.8897259886, 0.01, 10.0])])
+            else:
+                steps.append([op, [float(rng.randint(-3, 3)), 0.25, -1.5]])
+        steps.append(["write_view", how()])
+        if rng.random() < 0.6:
+            steps.append(["write_parent", rng.choice(VIEW_HOW[:3])])
+    return spec
+
+
+def view_order_class(sel):
+    if not sel:
+        return "empty"
+    if len(set(sel)) < len(sel):
+        return "index-repeated"
+    return "ascending" if sel == sorted(sel) else "not-ascending"
+
+
+def _comment(g):
+    return f"{g.name}" if hasattr(g, "name") else f"{type(g)}"
+
+
+def exec_view(ml, ctx, spec):
+    """Drives the real classes.  Returns (writes, applied steps in model form, view comment, parent comment).  The state every
+    write is judged against is kept HERE, in plain lists, from the spec alone -- never read back from the view."""
+    import numpy as np
+    from molli.chem import Molecule, Structure, ConformerEnsemble, Atom, Element
+    n = len(spec["syms"])
+    cls = Structure if spec["parent"] == "Structure" else Molecule
+    base = cls(n_atoms=0, name=spec["name"])
+    for sym, c in zip(spec["syms"], spec["frames"][spec["frame"] if spec["parent"] != "Conformer" else 0]):
+        base.add_atom(Atom(sym), c)
+    for i, j in spec["bonds"]:
+        base.connect(base.atoms[i], base.atoms[j])
+    if spec["parent"] == "Conformer":
+        ens = ConformerEnsemble(base, n_conformers=len(spec["frames"]))
+        ens.coords = np.array(spec["frames"], dtype=float).reshape(len(spec["frames"]), n, 3)
+        par = ens[spec["frame"]]
+    else:
+        par = base
+    pick = lambda g, idx, how: g.substructure([g.atoms[i] for i in idx] if how == "atom" else list(idx))
+    if spec["sel_as"] == "heavy":
+        view = par.heavy
+    elif spec["nested"]:
+        view = pick(pick(par, spec["nested"][0], spec["sel_as"]), spec["nested"][1], spec["sel_as"])
+    else:
+        view = pick(par, spec["sel"], spec["sel_as"])
+    sel = list(spec["sel"])
+    elems = [int(Element.get(s).z) for s in spec["syms"]]
+    rows = [[float(x) for x in r] for r in spec["frames"][spec["frame"]]]
+
+    def text_of(g, how):
+        if how == "dumps_xyz":
+            return g.dumps_xyz()
+        if how == "ml.dumps":
+            return ml.dumps(g, "xyz")
+        if how == "dump_xyz:stream":
+            buf = io.StringIO()
+            g.dump_xyz(buf)
+            return buf.getvalue()
+        path = os.path.join(ctx.sub("view"), "written.xyz")
+        with open(path, "w") as f:
+            g.dump_xyz(f)
+        return open(path).read()
+
+    writes, applied = [], []
+    for st in spec["steps"]:
+        op = st[0]
+        if op in ("write_view", "write_parent"):
+            g = view if op == "write_view" else par
+            idx = sel if op == "write_view" else list(range(n))
+            orig = [([elems[i] for i in idx], [False] * len(idx), [tuple(rows[i]) for i in idx])]
+            try:
+                txt, err = text_of(g, st[1]), None
+            except Exception as e:  # noqa: judged by the oracle
+                txt, err = None, type(e).__name__
+            writes.append({"text": txt, "error": err, "orig": orig, "step": st})
+            applied.append("VWriteView" if op == "write_view" else "VWriteParent")
+        elif op == "set_row":
+            par.coords[st[1]] = st[2]
+            rows[st[1]] = [float(x) for x in st[2]]
+            applied.append(f"(VEdit (VSetRow {cq_nat(st[1])} {trip_term(st[2])}))")
+        elif op == "set_elem":
+            par.atoms[st[1]].element = Element.get(st[2])
+            elems[st[1]] = int(Element.get(st[2]).z)
+            applied.append(f"(VEdit (VSetElem {cq_nat(st[1])} {cq_Z(elems[st[1]])}))")
+        else:
+            if op == "view_assign":
+                view.coords = np.array(st[1], dtype=float).reshape(-1, 3)
+                new = {i: [float(x) for x in r] for i, r in zip(sel, st[1])}
+            elif op == "view_scale":
+                view.scale(st[1])
+                new = {i: [x * st[1] for x in rows[i]] for i in set(sel)}
+            else:
+                view.translate(st[1])
+                new = {i: [x + v for x, v in zip(rows[i], st[1])] for i in set(sel)}
+            for i, r in new.items():
+                rows[i] = r
+            applied.append(f"(VEdit (VAssign {cq_list(trip_term(rows[i]) for i in sel)}))")
+    return writes, applied, _comment(view), _comment(par)
+
+
+def view_unit_read(ml, ctx, text, uname, which):
+    from molli.chem import Molecule, Structure, CartesianGeometry
+    if which == "Molecule.loads_xyz":
+        g = Molecule.loads_xyz(text, source_units=uname)
+    elif which == "Structure.loads_all_xyz":
+        g = Structure.loads_all_xyz(text, source_units=uname)[0]
+    elif which == "CartesianGeometry.load_xyz:stream":
+        g = CartesianGeometry.load_xyz(io.StringIO(text), source_units=uname)
+    else:
+        path = os.path.join(ctx.sub("view"), "unit.xyz")
+        with open(path, "w") as f:
+            f.write(text)
+        g = Molecule.load_all_xyz(path, source_units=uname)[0]
+    return [int(a.element.z) for a in g.atoms], [[float(x) for x in c] for c in g.coords]
+
+
+def judge_view(ml, ctx, spec, writes):
+    """Oracle: every text reads back as the selection (in selection order) of the parent's state at that moment; and, when the
+    parent's numbers are declared to be in another unit, the view's text read with source_units=U comes back in Angstrom."""
+    cls = view_order_class(spec["sel"])
+    for n, w in enumerate(writes):
+        what = "view" if w["step"][0] == "write_view" else "view-parent"
+        where = (f"write #{n} ({w['step'][0]} by {w['step'][1]}) of a Substructure over atoms {spec['sel']} ({spec['mode']}, {cls}) "
+                 f"of a {spec['parent']} of {len(spec['syms'])} atoms")
+        if w["text"] is None:
+            return (f"C08:xyz:{what}:cannot-write:{w['error']}", f"{where}: the writer raised {w['error']}")
+        v = judge_roundtrip(f"xyz:{what}", w["orig"], c10.observe(ml, "xyz", w["text"]))
+        if v:
+            return (v[0], f"{where}: {v[1]}")
+        v = judge_text(ml, w["text"], w["orig"])
+        if v:
+            return (v[0].replace("C08:xyz:size:text", f"C08:xyz:{what}:text"), f"{where}: {v[1]}")
+        if spec["unit"] and what == "view":
+            u, f = spec["unit"], PHYS[spec["unit"]]
+            which = VIEW_UNIT_READERS[n % len(VIEW_UNIT_READERS)]
+            r = c10.run_limited(lambda: view_unit_read(ml, ctx, w["text"], u, which))
+            if r[0] != "ok":
+                return (f"C08:units:view:{u}:{r[0]}", f"{where}: {which}(source_units={u!r}) failed: {r[1]}")
+            el, co = r[1]
+            want_el, _du, want = w["orig"][0]
+            if el != want_el or len(co) != len(want):
+                return (f"C08:units:view:{u}:elements", f"{where}: {which}(source_units={u!r}) returned elements {el}, written {want_el}")
+            for i, (p, q) in enumerate(zip(want, co)):
+                for a, b in zip(p, q):
+                    if not abs(a / f - b) <= 0.5000001e-6 / f + 2e-5 * abs(a / f) + 1e-12:
+                        return (f"C08:units:view:{u}:distances-changed",
+                                f"{where}, the parent's numbers being {u} (1 A = {f} {u}): atom {i} written {a!r} {u}, "
+                                f"{which}(source_units={u!r}) returned {b!r} A, expected {a / f!r}")
+    return None
+
+
+def view_term(ml, spec, writes, applied, vname, pname):
+    from molli.chem import Element
+    outs = []
+    for w in writes:
+        if w["text"] is None:
+            return None
+        lines = c10.to_lines(w["text"])
+        if not all(all(32 <= ord(c) < 127 for c in l) for l in lines):
+            return None
+        outs.append(c10.lines_term(lines))
+    atoms = cq_list(f"(mk_watom {cq_Z(int(Element.get(s).z))} {dec_term(float(c[0]))} {dec_term(float(c[1]))} {dec_term(float(c[2]))})"
+                    for s, c in zip(spec["syms"], spec["frames"][spec["frame"]]))
+    return (f"(s2l {cq_str(vname)}, {cq_list(cq_nat(i) for i in spec['sel'])}, (mk_wgeom (s2l {cq_str(pname)}) {atoms}), "
+            f"{cq_list(applied)}, {cq_list(outs)})")
+
+
+def run_views(ml, ctx, rep, n_views):
+    rng = ctx.rng
+    vcases, vspecs = [], []
+    for _ in range(n_views):
+        spec = gen_view(rng)
+        r = c10.run_limited(lambda: exec_view(ml, ctx, spec), limit=20)
+        cls = view_order_class(spec["sel"])
+        rep.case(key="view:" + json.dumps([spec["parent"], spec["syms"], spec["sel"], spec["sel_as"], spec["nested"], spec["unit"],
+                                           spec["frames"][spec["frame"]][:2], [s[:2] for s in spec["steps"]]], sort_keys=True),
+                 sample={"kind": "view", "parent": spec["parent"], "mode": spec["mode"], "sel": spec["sel"], "unit": spec["unit"],
+                         "steps": [s[0] for s in spec["steps"]]})
+        rep.count(f"view:parent={spec['parent']}")
+        rep.count(f"view:selection={spec['mode']}")
+        rep.count(f"view:order={cls}")
+        rep.count(f"view:given-as={spec['sel_as']}")
+        rep.count(f"view:unit={spec['unit'] or 'Angstrom'}")
+        for st in spec["steps"]:
+            rep.count(f"view:step:{st[0]}" + (f":{st[1]}" if st[0].startswith("write") else ""))
+        if any(s[0].startswith("view_") for s in spec["steps"]) and cls != "ascending":
+            rep.count("view:edited-through-a-view-not-in-parent-order")
+        if r[0] != "ok":
+            rep.violate(f"C08:xyz:view:{r[0]}:{r[1] if r[0] == 'err' else 'no-termination'}",
+                        f"a session on a Substructure over atoms {spec['sel']} ({spec['mode']}) of a {spec['parent']} did not complete: {r[1]}",
+                        {"kind": "view", "spec": spec})
+            continue
+        writes, applied, vname, pname = r[1]
+        v = judge_view(ml, ctx, spec, writes)
+        if v:
+            rep.violate(v[0], v[1], {"kind": "view", "spec": spec})
+        term = view_term(ml, spec, writes, applied, vname, pname)
+        if term is not None:
+            vcases.append(term)
+            vspecs.append(spec)
+    return vcases, vspecs
+
+
+HEAD_V = ("From Coq Require Import List ZArith NArith QArith String Ascii.\n"
+          "From Molli Require Import Common.ParseStr Model.Parse Model.XyzText Model.XyzEdit Model.XyzView Gen.XyzElements.\n"
+          "Import ListNotations.\nOpen Scope string_scope.\n")
+
+
 # ------------------------------------------------------------------ main
 HEAD = ("From Coq Require Import List ZArith NArith QArith String Ascii.\n"
         "From Molli Require Import Common.ParseStr Model.Parse Model.XyzText Gen.XyzElements.\n"
@@ -1211,7 +1521,12 @@ def run(ctx, rep):
                 "single geometries of the three classes, ensembles (atoms x frames, and products), and multi-frame texts, written "
                 "in five ways, judged as text (count line / records / tokens per frame), read back through every xyz entry point "
                 "(first-frame, all-frames, ensemble; str / path / stream / top-level), and compared with the model inside Coq "
-                "within a literal budget; distinct by written text / session / unit cell / size spec")
+                "within a literal budget; VIEW family: Substructures over a Molecule / Structure / Conformer of 2..8 atoms whose atoms were "
+                "selected ascending / permuted / reversed / as a whole permutation / with an index repeated / in breadth-first order "
+                "/ by `heavy` / as a substructure of a substructure / empty, given as indices or Atom objects, written five ways, the "
+                "parent edited directly and through the view (assign / scale / translate) and both written again, every text judged "
+                "against the selection of the state kept by the harness, a quarter re-read with source_units=U, all compared with "
+                "Model/XyzView.v inside Coq; distinct by written text / session / unit cell / size spec / view spec")
     rep.trusted += ["harness/c08.py: T-emitters for DistanceUnit / Element, the ast extractor of the scale(...) argument and of the paths of the block loop to its yield (fail-closed; conditions other than the unit guard are opaque), "
                     "exact micro-unit rounding of written coordinates (fractions)",
                     "CPython: format(x, '12.6f') and float() are correctly rounded; str.split / int() (modelled for ASCII)",
@@ -1221,7 +1536,9 @@ def run(ctx, rep):
                     "size family: harness/c08.py pat_elem / pat_dec expand the pattern of Model/XyzSize.v (each value checked exactly, in "
                     "integers, to have the pattern's micro-unit as its nearest); shard literals of the size family are packed into machine "
                     "integers (Model/XyzSize.v unpack_case decodes them before the model sees them); the text oracle (text_frames / "
-                    "judge_text) uses only str.split, int() and float()"]
+                    "judge_text) uses only str.split, int() and float()",
+                    "view family: the parent's state a view is judged against is kept by the harness in plain lists (spec + edits; "
+                    "scale / translate as one IEEE multiplication / addition per number), never read back through the view"]
     rep.assumptions += ["ASCII names without line breaks", "coordinates are finite floats",
                         "physical unit values used by the oracle and by C08_unit_values: 1 A = 1.8897259886 Bohr = 100 pm = 0.1 nm = 1e5 fm"]
     # --- regenerate Gen (T, S)
@@ -1320,6 +1637,9 @@ def run(ctx, rep):
     # --- write / edit / write sessions on one object: oracle + the model's own state evolution inside Coq
     scases, sspecs = run_sessions(ml, ctx, rep, 140 if not ctx.thorough else 1200)
     bad3 = vlib.run_shards(ctx, rep, "session", HEAD_S, "(chk_xyz_session element_symbols)", scases, shard=70)
+    # --- VIEW family: written objects that are selections of a parent, in selection order
+    vcases, vspecs = run_views(ml, ctx, rep, 260 if not ctx.thorough else 2500)
+    bad5 = vlib.run_shards(ctx, rep, "view", HEAD_V, "(chk_xyz_view element_symbols)", vcases, shard=90)
     # --- SIZE family: atom / frame counts at and around block lengths
     zbins, zspecs = run_size(ml, ctx, rep)
     bad4 = vlib.run_shards(ctx, rep, "size", HEAD_Z, "(chk_xyz_size_packed element_symbols element_names)", zbins, shard=1,
@@ -1332,6 +1652,13 @@ def run(ctx, rep):
             rep.violate("C08:xyz:model-mismatch:size", f"model and implementation disagree on a case of the size family (shard {i}: "
                         + "; ".join(size_describe(s) for s in zspecs[i][:5]) + ", ...)",
                         {"kind": "size-shard", "specs": zspecs[i][:40]}, no_input=not has_size)
+    has_view = any(v.sig.startswith(("C08:xyz:view", "C08:units:view")) for v in rep.violations)
+    if bad5 is None:
+        vlib.broken_obligation(rep, "corr_view", json.dumps(rep.extra.get("shard_errors", ""))[-1500:], has_view)
+    elif bad5:
+        for i in bad5[:10]:
+            rep.violate("C08:xyz:model-mismatch:view", f"model and implementation disagree on a text written in view session {i}: "
+                        + json.dumps(vspecs[i])[:400], {"kind": "view", "spec": vspecs[i]}, no_input=not has_view)
     if bad3 is None:
         vlib.broken_obligation(rep, "corr_session", json.dumps(rep.extra.get("shard_errors", ""))[-1500:],
                                any(v.sig.startswith("C08:xyz:session") for v in rep.violations))
@@ -1380,6 +1707,14 @@ def replay(ctx, data):
             out.append(vlib.Violation(f"C08:xyz:session:{r[0]}", str(r[1])))
         else:
             v = judge_session(ml, data["spec"], r[1][0])
+            if v:
+                out.append(vlib.Violation(v[0], v[1]))
+    elif data.get("kind") == "view":
+        r = c10.run_limited(lambda: exec_view(ml, ctx, data["spec"]), limit=20)
+        if r[0] != "ok":
+            out.append(vlib.Violation(f"C08:xyz:view:{r[0]}:{r[1] if r[0] == 'err' else 'no-termination'}", str(r[1])))
+        else:
+            v = judge_view(ml, ctx, data["spec"], r[1][0])
             if v:
                 out.append(vlib.Violation(v[0], v[1]))
     elif data.get("kind") in ("size", "size-shard"):
